@@ -176,6 +176,7 @@ pub fn record(output: &str) {
     let stacks = ["bare", "tool", "base", "base+tool", "frame", "tool>base", "pgram", "tool>pgram", "pgram>pgram"];
     let mut last_q: Joints = [0.0; 6];
     let mut recent: Vec<(Robot, Joints, f64, &str)> = Vec::new();
+    let mut slow = false;
     for k in 0..n {
         let mut p = robots::geometry(robots::GEOMETRY_CLASSES[k % robots::GEOMETRY_CLASSES.len()], &mut r);
         p = robots::convention(p, r.gen_range(0..64), ["zero", "quarter", "random"][k % 3], &mut r);
@@ -203,19 +204,21 @@ pub fn record(output: &str) {
         //  robot with shape answers for the kinematics it holds now)
         if k % 11 == 6 { robot.kin = std::sync::Arc::new(crate::shape::kws_around(robot.kin.clone())); }
         last_q = q;
+        let started = std::time::Instant::now();
         out.put(event(&robot, &q, EPS[k % 3], &mut r, sc, if k % 4 >= 2 { 0 } else { 1 + (k * 7) % 16 }));
+        if started.elapsed().as_millis() > 2000 { slow = true; }
         // every fortieth call: the last eight robots are asked again, all at the same time, each on a thread of its own
-        // and forty times over (the worst of the forty is recorded): a Jacobian is that of the robot, the joints and the
+        // and twelve times over (the worst of the twelve is recorded; not any more once a single event has taken seconds): a Jacobian is that of the robot, the joints and the
         // step it was asked for, whatever else is being computed meanwhile
         recent.push((robot, q, EPS[k % 3], sc));
         if recent.len() > 8 { recent.remove(0); }
-        if k % 40 == 39 {
+        if k % 40 == 39 && !slow {
             let seeds: Vec<u64> = (0..recent.len()).map(|i| 77_000 + (k * 8 + i) as u64).collect();
             let worst: Vec<Value> = std::thread::scope(|s| {
                 let hs: Vec<_> = recent.iter().zip(&seeds).map(|((robot, q, eps, sc), seed)| s.spawn(move || {
                     let mut rr = rng(*seed);
                     let mut worst: Option<(i64, Value)> = None;
-                    for _ in 0..40 {
+                    for _ in 0..12 {
                         let e = event(robot, q, *eps, &mut rr, sc, 0);
                         let score = if e["outcome"] == "ok" { ivec(&e["col_err_milli"]).into_iter().max().unwrap_or(0).max(e["torque_err_milli"].as_i64().unwrap_or(0)) } else { i64::MAX };
                         if worst.as_ref().map(|w| score > w.0).unwrap_or(true) { worst = Some((score, e)); }
